@@ -402,7 +402,13 @@ def explore(fn, params, max_paths=64, feas_timeout=10.0, stats=None, max_decisio
             tb = traceback.extract_tb(sys.exc_info()[2])
             where = "%s:%d" % (os.path.basename(tb[-1].filename), tb[-1].lineno) if tb else "?"
             last = tb[-1].filename if tb else ""
-            if last.startswith(_REPO_SRC):
+            msg = str(e)
+            symbolic_operand = isinstance(e, (TypeError, AttributeError, ValueError)) and any(
+                t in msg for t in ("LazyVec", "SymArray", "'Sym'", "SymBool", "SymBuffer", "sym_float", "sym_int", "sym_complex"))
+            if symbolic_operand:
+                # a C-level numpy routine refused a symbolic operand: the frame it surfaces in is the repo's, the cause is ours
+                outcome = 'unmodelled: %s: %s at %s (library routine applied to a symbolic operand)' % (type(e).__name__, msg[:200], where)
+            elif last.startswith(_REPO_SRC):
                 outcome = 'error: %s: %s at %s' % (type(e).__name__, str(e)[:200], where)
             elif any(f.filename.startswith(_REPO_SRC) for f in tb):
                 outcome = 'unmodelled: %s: %s at %s (raised inside the symbolic layer / a library)' % (
